@@ -86,13 +86,14 @@ class CuckooSystem(System):
     name = "cuckoo"
     serves = ("C03", "C05", "C06", "C08", "C14", "C15", "C19")
     rule = (
-        "CuckooFilter and CountingCuckooFilter with capacity 1..3 (4 thorough), bucket_size 1..2, max_swaps 1..3, "
-        "auto_expand on/off, 1-byte fingerprints, a table hash that dictates both candidate buckets of every "
-        "fingerprint (alternate = other bucket / same bucket / one shared pair) or the default FNV hash; events "
-        "add(key)/remove(key)/expand() over 2*slots+2 fingerprints (two spellings for two of them); EVERY resolution "
-        "of random.choice/randint inside a call is a separate transition (stateless enumeration of the call's choice "
-        "tree); BFS to the depth bound; non-trivial = state reached through an eviction, an expansion or a refused "
-        "insert."
+        'CuckooFilter and CountingCuckooFilter with capacity 1..3 (4 thorough), bucket_size 1..2, max_swaps 1..2 (plus chains of 3-4 '
+        'kicks; 3 thorough), auto_expand on/off, 1-byte fingerprints (plus filters sized by error rate), a table hash that dictates '
+        'both candidate buckets of every fingerprint (alternate = other bucket / same bucket / one shared pair), keys whose raw '
+        'fingerprint is 0, or the default FNV hash; events add(key)/remove(key)/expand()/reload (continue on the object loaded from '
+        'an export) over 2*slots+2 fingerprints (two spellings, str and bytes, for two of them); EVERY resolution of '
+        "random.choice/randint inside a call is a separate transition (stateless enumeration of the call's choice tree); BFS until "
+        'the transition budget stops it before an unfinished level; non-trivial = state reached through an eviction, an expansion, '
+        'a reload or a refused insert.'
     )
 
     def configs(self, prop, tier, seed):
